@@ -956,7 +956,7 @@ class reductions_numpy:
     """every reduction over any axes, keepdims and split_every gives NumPy's result whatever the chunking and fan-in"""
     bounded_only = True
     params = {"func": "const", "chunks": "const", "axis": "const", "keepdims": "const", "split_every": "const", "nanpat": "const"}
-    scope = ("4x6 float data, four NaN patterns (sparse, block-local all-NaN lanes, dense, a whole NaN row) for the nan-variants; 16 reducers; axes None/0/1/(0,1); keepdims; split_every None/2/3/{0:2,1:3}; "
+    scope = ("4x6 float data, four NaN patterns (sparse, block-local all-NaN lanes, dense, a whole NaN row) for the nan-variants; 28 reducers (incl. central moments of order 3-5 on skewed data, ptp, count_nonzero, average, topk/argtopk); axes None/0/1/(0,1); keepdims; split_every None/2/3/{0:2,1:3}; "
              "layouts from single block to 1x1 blocks")
 
     def real():
@@ -978,8 +978,39 @@ class reductions_numpy:
                 d[rc] = np.nan
         x = da.from_array(d, chunks=chunks)
         kw = {"axis": axis, "keepdims": keepdims}
-        dfun = getattr(da, func)
-        nfun = getattr(np, func)
+        if func.startswith("moment"):
+            # central moments of order 3..5 on skewed data: the odd powers see the sign of every per-group deviation
+            order = int(func[6:])
+            d = d ** 2 / 7.0 + d
+            x = da.from_array(d, chunks=chunks)
+            dfun = lambda a, **k: da.moment(a, order, **k)
+            nfun = lambda a, axis, keepdims: np.mean((a - np.mean(a, axis=axis, keepdims=True)) ** order, axis=axis, keepdims=keepdims)
+        elif func in ("ptp", "count_nonzero"):
+            kw = {"axis": axis}
+            dfun, nfun = getattr(da, func), getattr(np, func)
+            if keepdims or split_every is not None:
+                return None
+        elif func == "average":
+            w = np.arange(1.0, 7.0)
+            if axis != 1 or split_every is not None:
+                return None
+            dfun = lambda a, **k: da.average(a, weights=da.from_array(w, chunks=chunks[1]), **k)
+            nfun = lambda a, **k: np.average(a, weights=w, **k)
+        elif func in ("topk", "argtopk"):
+            if axis not in (0, 1) or keepdims:
+                return None
+            kw = {"axis": axis}
+            dd = d + np.arange(24.0).reshape(4, 6) / 100.0  # distinct values: the order of ties is unspecified
+            x = da.from_array(dd, chunks=chunks)
+            d = dd
+            dfun = lambda a, **k: getattr(da, func)(a, 2, **k)
+            if func == "topk":
+                nfun = lambda a, axis: np.flip(np.sort(a, axis=axis), axis=axis).take(range(2), axis=axis)
+            else:
+                nfun = lambda a, axis: np.flip(np.argsort(a, axis=axis), axis=axis).take(range(2), axis=axis)
+        else:
+            dfun = getattr(da, func)
+            nfun = getattr(np, func)
         if split_every is not None:
             got = dfun(x, split_every=split_every, **kw)
         else:
@@ -994,12 +1025,15 @@ class reductions_numpy:
         return True
 
     def ensures(result, func, chunks, axis, keepdims, split_every, nanpat):
+        if result is None:
+            return {}
         got, want, nb = result
         return {"equals-numpy": _same(got, want)}
 
     def domain(tier, rng):
         funcs = ["sum", "prod", "min", "max", "any", "all", "mean", "var", "std", "nansum", "nanmean", "nanmax", "nanmin", "nanvar",
-                 "nanprod", "argmin", "argmax", "nanargmax", "nanargmin"]
+                 "nanprod", "argmin", "argmax", "nanargmax", "nanargmin", "nanstd", "moment3", "moment4", "moment5", "ptp",
+                 "count_nonzero", "average", "topk", "argtopk"]
         layouts = [((4,), (6,)), ((2, 2), (3, 3)), ((1, 1, 1, 1), (1,) * 6), ((3, 1), (1, 5)), ((1, 3), (2, 2, 2))]
         axes = [None, 0, 1, (0, 1)]
         ses = [None, 2, 3, {0: 2, 1: 3}]
@@ -1007,7 +1041,8 @@ class reductions_numpy:
                   for p in ((0, 1, 2, 3) if f.startswith("nan") else (0,))]
         if tier == "quick":
             nan_arg = [c for c in combos if c[0] in ("nanargmax", "nanargmin") and c[4] is None and not c[3]]
-            combos = rng.sample(combos, 600) + nan_arg
+            deep = [c for c in combos if c[0].startswith("moment") and c[4] == 2 and not c[3] and c[2] in (None, 0)]
+            combos = rng.sample(combos, 700) + nan_arg + deep
         for f, l, a, k, s, p in combos:
             yield {"func": f, "chunks": l, "axis": a, "keepdims": k, "split_every": s, "nanpat": p}
 
